@@ -249,6 +249,14 @@ fn random_soup(r: &mut Rng) -> Vec<Vec<[f64; 2]>> {
     (0..np).map(|_| { let n = r.range(2, 9) as usize; (0..n).map(|_| [r.range(0, side) as f64, r.range(0, side) as f64]).collect() }).collect()
 }
 
+/// extreme magnitudes: a small lattice scaled to subnormal / near-overflow step sizes
+fn extreme_lattice(r: &mut Rng) -> Vec<Vec<[f64; 2]>> {
+    let step = *r.pick(&[5e-324, 1e-320, 1e-310, 2.2250738585072014e-308, 1e-300, 1e300, 1e307, 4e307]);
+    let np = 1 + r.below(2) as usize;
+    (0..np).map(|_| { let n = r.range(3, 7) as usize; (0..n).map(|_| { let sx = if r.chance(0.3) { -1.0 } else { 1.0 }; let sy = if r.chance(0.3) { -1.0 } else { 1.0 };
+        [sx * step * r.range(0, 4) as f64, sy * step * r.range(0, 4) as f64] }).collect() }).collect()
+}
+
 fn special_coords(r: &mut Rng) -> Vec<Vec<[f64; 2]>> {
     let sp = [f64::NAN, f64::INFINITY, f64::NEG_INFINITY, -0.0, 0.0, 5e-324, 1e300, -1e300, 1.0, 2.0, 3.0];
     let n = r.range(0, 6) as usize;
@@ -311,6 +319,7 @@ pub fn run(o: &Opts) -> Report {
     }
     for _ in 0..(if o.thorough { 200000 } else { 20000 }) { extra.push(("soup", random_soup(&mut rng))); }
     for _ in 0..(if o.thorough { 20000 } else { 3000 }) { extra.push(("special", special_coords(&mut rng))); }
+    for _ in 0..(if o.thorough { 400000 } else { 60000 }) { extra.push(("extreme", extreme_lattice(&mut rng))); }
     extra.push(("empty", vec![]));
     extra.push(("empty-poly", vec![vec![]]));
     for (name, polys) in &extra {
@@ -320,10 +329,14 @@ pub fn run(o: &Opts) -> Report {
             r.cases += 1;
             r.count(&format!("gen:{}", name));
             r.count(&format!("impl:{}", out.class()));
-            if *name != "soup" && *name != "special" && r.samples.len() < 6 { r.sample(format!("{} {} -> {}", name, text(polys), out.class())); }
+            if *name != "soup" && *name != "special" && *name != "extreme" && r.samples.len() < 6 { r.sample(format!("{} {} -> {}", name, text(polys), out.class())); }
         }
         judge(polys, &out, &rep, &counts);
-        if *name != "soup" || rng.chance(0.2) { model_reqs.lock().unwrap().push((request(polys), out.wire(), text(polys))); }
+        // coordinates whose differences overflow produce NaN ordinates/gradients; `f64::total_cmp` then
+        // depends on the SIGN of the NaN, which Lean's `Float` cannot observe: such inputs are judged by
+        // the implementation-side oracle (no panic, error classification) only
+        let overflowing = polys.iter().flatten().any(|v| v[0].abs() > 8e307 || v[1].abs() > 8e307);
+        if !overflowing && ((*name != "soup" && *name != "extreme") || rng.chance(0.2)) { model_reqs.lock().unwrap().push((request(polys), out.wire(), text(polys))); }
     }
     let mut rep = rep.into_inner().unwrap();
     rep.nontrivial = counts.valid.load(Ordering::Relaxed) + counts.crossing.load(Ordering::Relaxed);
